@@ -104,7 +104,7 @@ def _case(draw, knob):
         outs = [l for l in outs if l[1] in ARGK] or outs
     if not ins or not outs:
         return {"input": inp, "output": out, "pairs": [], "wrap": None, "eval": ev, "cli": False}
-    wrap = None if ev else draw(st.sampled_from(WRAPS))
+    wrap = draw(st.sampled_from(WRAPS))  # the template wraps "all" replacements: the Literal of eval mode too
     if knob == "repeated_input_wrap":
         wrap = WRAPS[2]
     if knob == "valued_same_name":
@@ -331,6 +331,8 @@ def run_case(case):
             if case["eval"]:
                 vals = ast.literal_eval(next(s for s in case["input"]["body"] if s["name"] == i[-1])["value"])
                 want = "Literal[%s]" % ", ".join(repr(v) for v in vals)
+                if case["wrap"]:
+                    want = case["wrap"].format(output_param=want)
             else:
                 ann = _ann_of(inode)
                 if ann is None:
